@@ -57,8 +57,10 @@ BOUNDS = {
     "quick": "shapes (3,4),(4,3),(2,3,4),(4,3,2),(2,2,2,3),(3,3,3); 5 data members per shape (exact rank 1, exact rank 2, "
              "rank 2 + integer noise, generic, counts with an empty slice); holders tensor, sptensor, ttensor "
              "(identity factors; native CP factors for the exact members), sumtensor (dense+sparse split; Kruskal + "
-             "sparse noise); every holder with storage dtype float64, int64 and the narrowest exact integer dtype of "
-             "the member (int8 / int16, uint8 for the non-negative counts); rank 1..3; K = 3 horizons; guesses: given integer ktensor x dimorder {identity, reversal, "
+             "sparse noise); storage dtype float64 on every (holder, rank) plus the integer dtypes int64 and narrowest "
+             "exact of the member (int8 / int16, uint8 for the non-negative counts) as a pairwise covering: every holder "
+             "with each of them, every rank with each of them (one integer dtype per (holder, rank), rotating); rank "
+             "1..3; K = 3 horizons; guesses: given integer ktensor x dimorder {identity, reversal, "
              "3-cycle} x optdims {all, drop-first, single}, the given guess with non-unit mixed-sign weights x {(identity, "
              "all), (reversal, drop-first)}, warm restarts (guess = model returned by an earlier call of j sweeps) "
              "(j=2, identity, all) and (j=1, reversal, drop-first), random seeds {0,1,2} and nvecs with default "
@@ -68,7 +70,7 @@ BOUNDS = {
     "thorough": "same shapes plus (1,4) and (3,1,4) with three members each; 9 members per shape (more value seeds, rank 3 + noise, exact rank 3, empty last slice); "
                 "holders additionally tensor from a C buffer, sptensor stored in reverse, ttensor with sparse core, "
                 "three-part sumtensor (these four layouts with float64 storage only); storage dtypes int64 and narrowest exact on "
-                "the quick-tier holders, every other exact dtype of int32/int16/int8/uint8 on tensor and sptensor (integer storage "
+                "the quick-tier holders x every rank (full product), every other exact dtype of int32/int16/int8/uint8 on tensor and sptensor (integer storage "
                 "for the five quick-tier members of each shape); K = 6 horizons; given guess x ALL N! dimorders x ALL non-empty optdims subsets "
                 "(order 4: all 24 dimorders with all modes optimised + 3 dimorders x all 15 subsets), a second given "
                 "guess with non-unit weights, warm restarts j in {1,2,3} on 5 (dimorder, optdims) keys, random seeds "
@@ -533,10 +535,20 @@ def gen_cases(tier, seed):
             # the storage dtype dimension is crossed with the quick-tier members (the further members of the thorough
             # tier vary values and rank, which the storage does not see)
             core = d in members(shape, "quick", seed)
-            for name in holder_names(d, tier):
-                if "@" in name and not core:
+            names = holder_names(d, tier)
+            plain = [n for n in names if "@" not in n]
+            for name in names:
+                base, _, dt = name.partition("@")
+                if dt and not core:
                     continue
                 for R in (1, 2, 3):
+                    if dt and tier == "quick":
+                        # quick: pairwise covering of storage dtype x holder and storage dtype x rank - the integer
+                        # dtypes of a holder rotate over the ranks, the rotation is shifted from holder to holder
+                        # (thorough: the full product)
+                        alts = [n for n in names if n.startswith(base + "@")]
+                        if alts[(R + plain.index(base)) % len(alts)] != name:
+                            continue
                     yield {"check": "als", "data": d, "holder": name, "rank": R, "tier": tier, "seed": seed}
 
 
